@@ -308,8 +308,13 @@ PROPS["C15"]["mc"] = {"quick": [alg("SliceAlgs.tla", "SliceAlgs_%d.cfg" % i, wor
 POW_PROBES = [alg("PowAlgs.tla", "PowAlgs_probe_%s.cfg" % v, expect_violation=v, workers=4) for v in ("NoEarlyNone", "NoSignFlip", "NoMinPower", "NoDeepLog")]
 PROPS["C08"]["mc"] = {"quick": [alg("PowAlgs.tla", "PowAlgs_6.cfg", workers=4), alg("PowAlgs.tla", "PowAlgs_8.cfg")] + POW_PROBES[:2],
                       "thorough": [alg("PowAlgs.tla", "PowAlgs_6.cfg", workers=4), alg("PowAlgs.tla", "PowAlgs_8.cfg"), alg("PowAlgs.tla", "PowAlgs_10.cfg", workers=10)] + POW_PROBES}
+FA = lambda c, **kw: alg("FloatAlgs.tla", "FloatAlgs_%s.cfg" % c, workers=4, **kw)
+FLOAT_Q = [FA("3_3_8"), FA("4_4_8"), FA("old", expect_violation="Correct"), FA("probe_NoCarry", expect_violation="NoCarry"), FA("probe_NoSaturate", expect_violation="NoSaturate")]
+FLOAT_T = [FA(c) for c in ("3_3_4", "3_3_8", "3_3_10", "4_4_8", "4_4_12", "3_5_9")] + [FA("old", expect_violation="Correct")] + \
+          [FA("probe_" + v, expect_violation=v) for v in ("NoCarry", "NoRoundToInf", "NoSaturate", "NoSubnormal", "NoShiftLeft")]
 for _p in ("C14", "C19"):
-    PROPS[_p]["mc"] = {"quick": [], "thorough": [{"dir": "mc", "module": "MC_Float.tla", "cfg": "MC_Float_6.cfg", "workers": 8, "timeout": 3000, "xmx": "6g"}]}
+    PROPS[_p]["mc"] = {"quick": list(FLOAT_Q) if _p == "C14" else [FA("3_3_8")],
+                       "thorough": FLOAT_T + [{"dir": "mc", "module": "MC_Float.tla", "cfg": "MC_Float_6.cfg", "workers": 8, "timeout": 3000, "xmx": "6g"}]}
 # AsPrimitive::as_ equals the As cast (C19): the cast drivers record the AsPrimitive forms next to As / CastFrom
 PROPS["C19"]["extra"] = {"quick": [("conv", "C09", [64])], "thorough": [("conv", "C09", [8, 24, 64, 96, 192])]}
 L2MC = {"dir": "mc", "module": "MC_L2.tla", "cfg": "MC_L2_b4.cfg", "workers": 6, "timeout": 3000}
